@@ -72,6 +72,7 @@ pub fn run(tier: &str) -> ! {
         "SMALL policy: same actor code with scaled protocol parameters (24-epoch proving period, 2 KiB sectors, partitions of 2); constants that are not policy (vesting spec, termination fee days) are as on mainnet".into(),
         "mcvm stands in for the FVM; proofs are faked (valid unless marked BAD); the real cron tick runs at every epoch".into(),
         "fault class F2 (scenario c05-tick-faults): any one nested send of a tick fails (the callee does not run, the caller sees a non-zero exit code); judged: the tick as a whole succeeds, nothing panics or reports broken balance invariants, nothing fails except the failed send and the calls containing it, state invariants hold, and for the following proving period every tick succeeds completely and every miner that kept its claim is back on schedule".into(),
+        "the market scenario `market/payments` of C07 is explored here as well for its tick oracle (every cron tick, incl. Market.CronTick over deal start / update / end epochs after every settlement and termination schedule, must succeed)".into(),
         "a second 'ballast' miner holds a large locked reward so that the network pledge total stays positive (see KF-1)".into(),
     ];
     run.add(mcx::explore(&scn, &b));
@@ -82,5 +83,10 @@ pub fn run(tier: &str) -> ! {
     run.add(mcx::explore(&scn2, &b2));
     let (sf, bf) = scenario_tick_faults(tier);
     run.add(mcx::explore(&sf, &bf));
+    // the market side of the tick: settlement / termination / time schedules over deal boundaries
+    // (C07's scenario; what matters here is its oracle that every tick, incl. Market.CronTick, succeeds)
+    let (sm, mut bm) = crate::c07::scenario(tier);
+    bm.wall_cap_s = if tier_is_thorough(tier) { 600.0 } else { 20.0 };
+    run.add(mcx::explore(&sm, &bm));
     run.finish()
 }
